@@ -157,7 +157,7 @@ def check_config(ctx, spec, rsel, label):
                 # because the wrapper exposes the parameters of all entry points of the inner cycle
                 nested_reject = "Ambiguous cycle entry" in str(err) and any(e[0] == "run_begin" for e in o.rec.ev)
                 ctx.violation(
-                    "C08:sufficient-rejected" + (":nested-cycle-entry" if nested_reject else ""),
+                    "C08:sufficient-rejected" + (":nested-cycle-entry" if nested_reject else ":bound-output-name" if "Cannot mix compute and inject" in str(err) and bound_output_mechanism(spec) else ""),
                     f"{runner}: the reported contract required={req} entry={ename}->{eps} was supplied exactly, yet the run was rejected: {type(err).__name__}: {str(err)[:200]}",
                     c2,
                 )
@@ -185,7 +185,7 @@ def check_config(ctx, spec, rsel, label):
             c2 = {**case, "provided": provided, "omitted": r, "runner": runner}
             activity = [e[0] for e in o.rec.ev if e[0] in ("enter", "ev", "shutdown")]
             if not isinstance(o.exc, MissingInputError):
-                ctx.violation("C08:omission-accepted" + (":required-lists-own-output" if bypass_mechanism(spec, r, provided) else ""), f"{runner}: required input {r} omitted, expected MissingInputError, got status {o.status} ({o.exc!r}); activity={activity[:5]}", c2)
+                ctx.violation("C08:omission-accepted" + (":required-lists-own-output" if bypass_mechanism(spec, r, provided) else ":bound-output-name" if bound_output_mechanism(spec, r) else ""), f"{runner}: required input {r} omitted, expected MissingInputError, got status {o.status} ({o.exc!r}); activity={activity[:5]}", c2)
             elif activity:
                 ctx.violation("C08:activity-before-rejection", f"{runner}: rejected for missing {r} only after {activity[:6]}", c2)
     # ---- the same contract questions on graphs derived AFTER the runs above ----
@@ -212,7 +212,7 @@ def check_config(ctx, spec, rsel, label):
                 ctx.obs["derived_runs"] += 1
                 activity = [e[0] for e in o.rec.ev if e[0] in ("enter", "ev", "shutdown")]
                 if not isinstance(o.exc, MissingInputError):
-                    ctx.violation("C08:derived-unbind-not-required" + (":required-lists-own-output" if bypass_mechanism(spec, r0, less) else ""), f"{runner}: after bind({r0}).unbind({r0}) on a graph that was already run, omitting {r0} is accepted: status {o.status} ({o.exc!r}) activity={activity[:4]}", {**case, "provided": less})
+                    ctx.violation("C08:derived-unbind-not-required" + (":required-lists-own-output" if bypass_mechanism(spec, r0, less) else ":bound-output-name" if bound_output_mechanism(spec, r0) else ""), f"{runner}: after bind({r0}).unbind({r0}) on a graph that was already run, omitting {r0} is accepted: status {o.status} ({o.exc!r}) activity={activity[:4]}", {**case, "provided": less})
     if entry:
         for runner in ("sync", "async"):
             o = core.execute(built, dict(base), runner, processors=[Rec("p")], **kw)
@@ -223,6 +223,28 @@ def check_config(ctx, spec, rsel, label):
             elif activity:
                 ctx.violation("C08:activity-before-rejection", f"{runner}: rejected for missing entry point only after {activity[:6]}", case)
     return bool(req or entry)
+
+
+def bound_output_mechanism(spec, omitted=None):
+    """Classifier for the known finding: a name that a node of the graph PRODUCES is also bound (on the graph, or
+    inside a nested graph under the wrapper's external name). The binding counts as a provided value, the producer
+    is treated as bypassed at run time, but the reported contract still lists the producer's own inputs as
+    required. With `omitted`: that input is consumed by such a bypassed producer only."""
+    produced = {}
+    for ns in spec["nodes"]:
+        for e in ref.data_output_names(ns):
+            produced.setdefault(e, []).append(ns)
+    bound = set(spec.get("bind") or {})
+    for ns in spec["nodes"]:
+        if ns["k"] == "sub":
+            ext = dict(ref.node_inputs(ns))
+            bound |= {ext.get(k, k) for k in (ns["prog"].get("bind") or {})}
+    hit = [n for b in bound & set(produced) for n in produced[b]]
+    if not hit:
+        return False
+    if omitted is None:
+        return True
+    return any(omitted in {e for _, e in ref.node_inputs(n)} for n in hit)
 
 
 def directed_cases():
@@ -253,6 +275,11 @@ def directed_cases():
         ]
         out.append((f"directed:unselected-subgraph-with-inner-binding:{lab}", {"name": "outer", "nodes": nodes, "bind": {}, **extra}, None))
         out.append((f"directed:unselected-subgraph-with-inner-binding:runtime-{lab}", {"name": "outer", "nodes": copy.deepcopy(nodes), "bind": {}}, extra["select"]))
+    # a name PRODUCED by a node is bound as well - on the graph, or inside a nested graph that consumes it
+    prod = {"k": "fn", "name": "P", "params": [{"n": "a"}], "outs": ["x"]}
+    cons = {"k": "fn", "name": "f", "params": [{"n": "x"}], "outs": ["y"]}
+    out.append(("directed:bound-output-name:graph-level", {"name": "outer", "nodes": [copy.deepcopy(prod), copy.deepcopy(cons)], "bind": {"x": "bound:X"}}, None))
+    out.append(("directed:bound-output-name:inside-nested-graph", {"name": "outer", "nodes": [copy.deepcopy(prod), {"k": "sub", "name": "inner", "prog": {"name": "inner", "nodes": [copy.deepcopy(cons)], "bind": {"x": "bound:X"}}}], "bind": {}}, None))
     return out
 
 
